@@ -225,7 +225,7 @@ func c08(args []string) error {
 			// that many senders time out in)
 			v := cur + []int{0, 0, 0, 0, 1, 1, -1, 2, 5, 11, 12, 40}[rng.Intn(12)]
 			if rng.Intn(3) == 0 {
-				v = hotView
+				v = hotView + rng.Intn(2) // (two neighbouring hot views: the quorum of the later one may complete first)
 			}
 			if v < 1 {
 				v = 1
